@@ -36,6 +36,11 @@ def odml_tuple_import(t_count, new_value):
     return_value = []
 
     for n_val in new_value:
+        if not isinstance(n_val, (list, tuple, str)):
+            # Only strings and sequences can hold an odml style tuple; hand the
+            # input back unchanged, the value validation will refuse it.
+            return new_value
+
         if isinstance(n_val, (list, tuple)):
             if len(n_val) == t_count:
                 n_val_str = "("
